@@ -118,6 +118,7 @@ def _worker_main(prop, conn, tier, slot=0):
         return
     conn.send(("ready", None))
     known = load_known()
+    prior = []  # cases this world already executed (process-global state can carry over between runs)
     while True:
         try:
             msg = conn.recv()
@@ -144,6 +145,9 @@ def _worker_main(prop, conn, tier, slot=0):
             out["violations"] = viols
             if viols or idx < 3:
                 out["case"] = case
+            if viols:
+                out["prior_cases"] = prior[-40:]
+            prior.append(case)
             retire = bool(viols) or bool(res.get("harness_error"))
             conn.send(("result", idx, out))
             if retire:
@@ -463,6 +467,13 @@ def main(prop, argv=None):
             rep["minimised_from"]["note"] = "minimised case did not replay; original case kept"
             _write_json(path, rep)
             ok = _verify_replay(prop, path, k)
+        if not ok and results[idx].get("prior_cases"):
+            # the violation may need state left behind by earlier runs of the same world: replay those first
+            rep["case"] = case
+            rep["prior_cases"] = results[idx]["prior_cases"]
+            rep["minimised_from"]["note"] = "needs the prior cases of its world (process-global state across runs); not minimised"
+            _write_json(path, rep)
+            ok = _verify_replay(prop, path, k)
         rep["replay_verified"] = ok
         _write_json(path, rep)
         reported.append((path, v, ok))
@@ -525,6 +536,8 @@ def replay(prop, path):
     rep = json.load(open(path))
     case = rep.get("case", rep)
     mod = _load_prop(prop)
+    for pc in rep.get("prior_cases") or []:
+        _exec_case(mod, pc)  # rebuild the world's history; only the last case is judged
     res = _exec_case(mod, case)
     if res.get("harness_error"):
         print("HARNESS-ERROR during replay\n" + res["harness_error"])
